@@ -677,14 +677,15 @@ Definition handle (n : node) (c : nat) (rq : request) : node * resp :=
           fst (resolve_conflict n dbn0 (mkCh key value version opp_id true))
         else send_to_primary n ("resolve " +++ N_to_str opp_id +++ " " +++ dbn +++ " " +++ key +++ " "
                                 +++ Z_to_str version +++ " " +++ value) in
+      (* fix: a refused resolve answers its refusal (so it is not replicated) *)
       if auth then
         match guard_db_name n c dbn None PRead with
-        | GStop n' _ => (n', ROk)
+        | GStop n' r => (n', r)
         | GGo dbn0 _ => (run dbn0, ROk)
         end
       else
         match guard_safe n c key PWrite with
-        | GStop n' _ => (n', ROk)
+        | GStop n' r => (n', r)
         | GGo dbn0 _ => (run dbn0, ROk)
         end
   | RqListCommands =>
@@ -828,3 +829,36 @@ Definition http_request (n : node) (body : str) : node * option (list str) :=
   let '(n0, c) := connect n in
   let '(n1, out) := http_commands n0 c (split_char ";" body) [] in
   (disconnect n1 c, out).
+
+(* ---- in-memory effect of snapshot_all_pendding_dbs (disk_ops.rs) ------------- *)
+(* storage_data_disk marks every key it writes as Ok (fresh op id each); tombstones
+   stay tombstones.  File contents are the Disk model's business (Model/Disk.v). *)
+Fixpoint dedup_snap (l : list (str * bool)) : list (str * bool) :=
+  match l with
+  | a :: ((b :: _) as r) =>
+      if String.eqb (fst a) (fst b) && Bool.eqb (snd a) (snd b) then dedup_snap r else a :: dedup_snap r
+  | _ => l
+  end.
+
+Definition snapshot_mem_value (reclaim : bool) (acc : list (str * value) * N) (kv : str * value)
+  : list (str * value) * N :=
+  let '(out, clk) := acc in
+  let '(k, v) := kv in
+  match v_st v with
+  | VDeleted => (out ++ [(k, v)], clk)
+  | VOk => if reclaim then (out ++ [(k, mkV (v_val v) (v_ver v) clk VOk (v_vaddr v) (v_kaddr v))], clk + 1)%N
+           else (out ++ [(k, v)], clk)
+  | _ => (out ++ [(k, mkV (v_val v) (v_ver v) clk VOk (v_vaddr v) (v_kaddr v))], clk + 1)%N
+  end.
+
+Definition snapshot_mem (n : node) (dbn : str) (reclaim : bool) : node :=
+  match get_db n dbn with
+  | None => n
+  | Some d =>
+      let '(m', clk) := fold_left (snapshot_mem_value reclaim) (d_map d) ([], n_clock n) in
+      n_set_clock (put_db n dbn (db_set_map d m')) clk
+  end.
+
+Definition flush_snapshots (n : node) : node :=
+  let q := rev (dedup_snap (n_snap n)) in
+  fold_left (fun n p => snapshot_mem n (fst p) (snd p)) q (n_set_snap n []).
